@@ -644,6 +644,34 @@ fn c05(args: &Args, rep: &mut Report, w: &Watch) {
         rep.count("exhaustive_size3_types", s3.len() as u64);
     }
 
+    // finite index signatures (a record over a literal key set, as the frontend builds it for template
+    // keys) against the same keys declared by name, with and without an index signature next to them
+    if args.shard == 0 {
+        use beff_core::ast::runtype::{IndexedProperty, Optionality};
+        use std::collections::BTreeMap;
+        let keyset = |ks: &[&str]| Runtype::any_of(ks.iter().map(|k| tgen::lit_s(k)).collect());
+        let fin = |ks: &[&str], v: Runtype| Runtype::new(RuntypeKind::Object { vs: BTreeMap::new(), indexed_properties: Some(Box::new(IndexedProperty { key: keyset(ks), value: Optionality::Required(v) })) });
+        let named = |ks: &[(&str, Runtype)], idx: Option<Runtype>| {
+            Runtype::new(RuntypeKind::Object {
+                vs: ks.iter().map(|(k, v)| (k.to_string(), Optionality::Required(v.clone()))).collect(),
+                indexed_properties: idx.map(|v| Box::new(IndexedProperty { key: Runtype::string(), value: Optionality::Required(v) })),
+            })
+        };
+        let vals = [tgen::lit_n(1), Runtype::number(), Runtype::null(), Runtype::string()];
+        for lv in &vals {
+            for rv in &vals {
+                for ri in [None, Some(Runtype::null()), Some(Runtype::number())] {
+                    for (lk, rk) in [(vec!["a", "b"], vec!["a", "b"]), (vec!["a", "b"], vec!["a"]), (vec!["a"], vec!["a", "b"])] {
+                        let s = fin(&lk, lv.clone());
+                        let t = named(&rk.iter().map(|k| (*k, rv.clone())).collect::<Vec<_>>(), ri.clone());
+                        c05_one(rep, w, &Case { s: s.clone(), t: t.clone(), defs: vec![], t_first: false }, cap, "finite-index-vs-named");
+                        c05_one(rep, w, &Case { s: t, t: s, defs: vec![], t_first: true }, cap, "finite-index-vs-named");
+                    }
+                }
+            }
+        }
+    }
+
     // (ii) random pairs with named recursive definitions, (iii) near pairs, relational pairs
     let n = rep.share(120_000, 4_000_000);
     for i in 0..n {
